@@ -155,11 +155,13 @@ where
     }
 
     async fn client_shutdown(&mut self, id: ConnectionId) -> Result<(), ConnectionError<T::Error>> {
-        self.send_broker_shutdown(id).await?;
+        // This fails only when the broker has shut down. The client must still get its reply,
+        // otherwise it sees a disconnect instead of a clean shutdown.
+        let res = self.send_broker_shutdown(id).await;
         self.send_message(Shutdown).await?;
         self.drain_broker_recv().await;
 
-        Ok(())
+        res
     }
 
     async fn client_error(&mut self, id: ConnectionId) -> Result<(), ConnectionError<T::Error>> {
